@@ -61,6 +61,7 @@ type Contract struct {
 	Modifies []Clause // expressions naming the cells a call may modify; nil+!Pure => everything reachable
 	ModSet   bool
 	Notes    []string
+	IsInit   bool     // the synthetic contract of a package initializer (init-establishes)
 	Invokes  []string // function-typed parameters the (assumed) callee calls; last(p) / invoked(p) in its ensures refer to the last such call
 	LoopFrames bool // (pure functions) memory that existed on entry keeps its contents through loops
 	FrameTrusted string // reason why the frame condition is trusted rather than checked syntactically
@@ -110,6 +111,7 @@ type ContractFile struct {
 	Lemmas    []*Lemma
 	Decoded   []*Decoded
 	GlobalInvs []Clause // facts about package-level variables established by package initialisation and never changed
+	InitInvs   []Clause // the global invariants that are also proved on the package initializer (`init-establishes`)
 }
 
 func parseClause(s, file string, line int) (Clause, error) {
@@ -233,12 +235,15 @@ func parseContractFile(path string) (*ContractFile, error) {
 			cf.Specs = append(cf.Specs, sf)
 			cur = nil
 			continue
-		case "global-invariant":
+		case "global-invariant", "init-establishes":
 			c, err := parseClause(rest, path, ln)
 			if err != nil {
 				return nil, err
 			}
 			cf.GlobalInvs = append(cf.GlobalInvs, c)
+			if kw == "init-establishes" {
+				cf.InitInvs = append(cf.InitInvs, c)
+			}
 			cur = nil
 			continue
 		case "decoded":
